@@ -23,7 +23,7 @@ def decodeText (t : String) : Option Str := if t == "-" then some [] else unhex 
 inductive Expect where
   | any
   | rej (cls : String)
-  | wf (S A O : Nat) (disc : XRat) (stmts : List (Char × Stmt))
+  | wf (S A O : Nat) (disc : XRat) (stmts : List (Char × Stmt)) (vals : List (String × String × XRat))
 
 def pSel : P Sel := do
   let t ← P.tok
@@ -53,7 +53,9 @@ def pExpect : P Expect := do
   else if t == "wf" then do
     let S ← P.nat; let A ← P.nat; let O ← P.nat; let d ← P.x
     let st ← P.list pStmt
-    pure (.wf S A O d st)
+    P.lit "vals"
+    let vals ← P.list (do let t ← P.tok; let e ← P.tok; let x ← P.x; pure (t, e, x))
+    pure (.wf S A O d st vals)
   else P.fail
 
 structure ImplParse where
@@ -116,15 +118,8 @@ def expRewards (T R : List XRat) (nrows S : Nat) : Option (List Rat) :=
 def closeList (a : List Rat) (b : List XRat) : Bool :=
   a.length == b.length && (a.zip b).all fun (x, y) => match y with | .fin q => closeQ (1 / 1000000000) x q | _ => false
 
-/-- array replay of a write trace (linear time); equals `tableList` (cross-checked below on small tables, and the
-    in-bounds guard is redundant by `parse_writes_in_bounds`) -/
-def replay (ws : List Write) (D1 D2 D3 : Nat) : List XRat :=
-  let arr := ws.foldl (fun (a : Array XRat) w =>
-      if w.d1 < D1 && w.a < D2 && w.d3 < D3 then a.set! (offset D2 D3 w) w.v else a) (Array.replicate (D1 * D2 * D3) (XRat.fin 0))
-  arr.toList
-
-def tableOf (ws : List Write) (D1 D2 D3 : Nat) : List XRat :=
-  if D1 * D2 * D3 ≤ 64 then tableList ws D1 D2 D3 else replay ws D1 D2 D3
+/-- the table of a write trace, in linear time; `replayList_eq_tableList` (Props.C18k) proves it equal to `tableList` -/
+def tableOf (ws : List Write) (D1 D2 D3 : Nat) : List XRat := replayList ws D1 D2 D3
 
 def containsHex : Str → Bool
   | '0' :: x :: r => (x == 'x' || x == 'X') || containsHex (x :: r)
@@ -210,7 +205,6 @@ def parseCmd : P String := do
     | .ok r, .ok i =>
         let p := r.pre
         let v := v.diffIf (p.S != i.S || p.A != i.A || (isP && p.O != i.O)) s!"CassandraParser sizes model={p.S},{p.A},{p.O} impl={i.S},{i.A},{i.O}"
-        let v := v.diffIf (p.S * p.A * p.S ≤ 64 && replay r.st.wT p.S p.A p.S != tableList r.st.wT p.S p.A p.S) "driver replay differs from tableList"
         let v := v.diffIf (roundX p.disc != i.disc) s!"CassandraParser discount model={p.disc} impl={i.disc}"
         let v := v.diffIf ((tableOf r.st.wT p.S p.A p.S).map roundX != i.T) s!"CassandraParser T model={(tableOf r.st.wT p.S p.A p.S)} impl={i.T}"
         let v := v.diffIf ((tableOf r.st.wR p.S p.A p.S).map roundX != i.R) s!"CassandraParser R model={(tableOf r.st.wR p.S p.A p.S)} impl={i.R}"
@@ -254,7 +248,19 @@ def parseCmd : P String := do
           v.failIf ic.toOption.isSome s!"parseCassandra {cls}_accepted"
         else
           v.failIf ip.toOption.isSome s!"CassandraParser {cls}_accepted"
-    | .wf S A O d stmts =>
+    | .wf S A O d stmts vals =>
+        -- per value token: the model's reading of the literal is EXACTLY the rational the generator meant (no rounding involved),
+        -- and its correctly rounded double is the one libc produced
+        let bad := vals.filter fun (t, e, x) =>
+          match decodeText t with
+          | none => true
+          | some tok =>
+            match stodS flags tok with
+            | .error _ => true
+            | .ok mv =>
+              (roundX mv != x) ||
+              (if e == "-" then false else match parseQ? e with | some q => mv != XRat.fin q | none => true)
+        let v := v.diffIf (!bad.isEmpty) s!"stod value of literal {bad.map (fun (p : String × String × XRat) => p.1)}"
         match ip with
         | .error c => v.failIf true s!"CassandraParser wellformed_rejected {c}"
         | .ok i =>
